@@ -306,6 +306,9 @@ func (cl *client) dial() bool {
 }
 
 func (cl *client) reqBytes(r, d int) []byte {
+	if cl.kind == "bH" { // an HTTP/1.0 client that asks for keep-alive
+		return []byte(fmt.Sprintf("GET /c/%d/%d?d=%d HTTP/1.0\r\nHost: c18.verif\r\nUser-Agent: c18\r\nConnection: keep-alive\r\n\r\n", cl.id, r, d))
+	}
 	return []byte(fmt.Sprintf("GET /c/%d/%d?d=%d HTTP/1.1\r\nHost: c18.verif\r\nUser-Agent: c18\r\n\r\n", cl.id, r, d))
 }
 
@@ -404,14 +407,14 @@ func (cl *client) script(ready func()) {
 				cl.read(2)
 			}
 		}
-	case "bA", "bL":
+	case "bA", "bL", "bH":
 		cl.jitter()
 		if !cl.dial() || !cl.write(1, cl.reqBytes(1, 0)) {
 			return
 		}
 		cl.waitEntered()
 		markReady()
-		if cl.kind == "bA" {
+		if cl.kind != "bL" {
 			<-x.phaseB
 		} else {
 			<-x.phaseC
@@ -597,7 +600,7 @@ func runServerCase(c *Case, log *evlog) {
 	x.ctl = make([]*connCtl, len(c.Conns)+1)
 	x.ctl[0] = &connCtl{kind: "probe", entered: make(chan int, 8)}
 	for i, k := range c.Conns {
-		x.ctl[i+1] = &connCtl{kind: k, gate: make(chan struct{}), gated: k == "bA" || k == "bL", entered: make(chan int, 8),
+		x.ctl[i+1] = &connCtl{kind: k, gate: make(chan struct{}), gated: k == "bA" || k == "bL" || k == "bH", entered: make(chan int, 8),
 			cbGate: make(chan struct{}), cbEntered: make(chan struct{})}
 	}
 	h.GET("/c/:c/:r", x.handler)
